@@ -12,11 +12,12 @@ import (
 // Implementation follows: http://www.hackerfactor.com/blog/index.php?/archives/432-Looks-Like-It.html
 // Optimized for performance and reduced memory footprint.
 func NewPHash64Alt(img image.Image) (phash PHash64, err error) {
-	var size image.Point
-	if img != nil {
-		size = img.Bounds().Size()
+	if img == nil {
+		err = ErrImageObject
+		return
 	}
-	if size.X != size.Y && size.X != 64 {
+	size := img.Bounds().Size()
+	if size.X != 64 || size.Y != 64 {
 		err = errors.New("error image size incompatible. PHash requires 64x64 image")
 		return
 	}
@@ -40,11 +41,12 @@ func NewPHash64Alt(img image.Image) (phash PHash64, err error) {
 // Implementation follows: http://www.hackerfactor.com/blog/index.php?/archives/432-Looks-Like-It.html
 // Optimized for performance and reduced memory footprint.
 func NewPHash256Alt(img image.Image) (phash PHash256, err error) {
-	var size image.Point
-	if img != nil {
-		size = img.Bounds().Size()
+	if img == nil {
+		err = ErrImageObject
+		return
 	}
-	if size.X != size.Y && size.X != 256 {
+	size := img.Bounds().Size()
+	if size.X != 256 || size.Y != 256 {
 		err = errors.New("error image size incompatible. PHash256 requires 256x256 image")
 		return
 	}
